@@ -63,6 +63,7 @@ def run(rep: Report, ctx: Any) -> str:
     rep.rule("R08.11", PROPERTY_RULE_TEXT)
     rep.rule("R08.14", FIXPOINT_RULE_TEXT)
     rep.rule("R08.15", POUR_RULE_TEXT)
+    rep.rule("R08.16", PICK_RULE_TEXT)
     rep.rule("R08.12", "the diagnostic of an omitted piece reaches the caller: where a parser function records diagnostics in a local "
                        "accumulator - an error value put into a container it created empty, or into a field declared as a list of errors "
                        "of an object it keeps in such a container - every return that hands the accumulator back hands it back entire: the "
@@ -206,6 +207,8 @@ def run(rep: Report, ctx: Any) -> str:
     _fixpoint_not_decided_by_one_item(rep, ctx)
     # ---- R08.15: diagnostics do not steer generation -----------------------------------------------------------------------------------
     _diagnostics_only_poured(rep, ctx)
+    # ---- R08.16: an emptied collection does not stop the render ---------------------------------------------------------------------
+    _picked_elements_exist(rep, ctx)
     # ---- R08.13 (sa/rules/rejected_items.py): a rejected item leaves nothing behind in the threaded registries
     from . import rejected_items
 
@@ -270,6 +273,44 @@ def _nothing_stale_remains(rep: Report, ctx: Any) -> None:
     rule = getattr(c01, "_rebuilt_from_empty", None)
     rep.require(callable(rule), "the no-stale-module rule of C01 (c01._rebuilt_from_empty), which R08.10 evaluates")
     rule(_Under(rep, "R08.10"), ctx)
+
+
+PICK_RULE_TEXT = (
+    "an emptied collection does not stop the render: what omitting a piece leaves behind is a smaller collection, possibly an empty one "
+    "(a tag whose operations were all refused keeps its collection, without endpoints). Where a template reads an attribute or an item "
+    "of, or calls, an element picked out of a collection - `| first`, `| last`, `| random`, `| min`, `| max`, `[<integer>]`, written "
+    "inline or held by a `set` / `with` variable - the collection is known to hold that element: at the dereference or where the "
+    "variable was bound, the template is inside a loop over the collection, or under conditions (truth table over their atoms; `and` / "
+    "`or` / inline-if count, and so does an arm that ended the iteration with continue / break) that leave no length below the one "
+    "needed - the collection or its length tested, its length compared with a constant; `.values()` / `| list` / `| sort` ... of a "
+    "collection are as empty as the collection - or the picked element itself was tested (truthy / `is defined`). Otherwise jinja2 "
+    "answers the pick with Undefined and the dereference raises UndefinedError: the build stops between two files, and the unrelated "
+    "modules after it are never written")
+
+
+def _picked_elements_exist(rep: Report, ctx: Any) -> None:
+    from . import c08_picks
+
+    n = 0
+    for name, ti in sorted(ctx.jinja.templates.items()):
+        by_key: dict[str, list[Any]] = {}
+        for st in c08_picks.sites(name, ti.tree):
+            by_key.setdefault(st.key, []).append(st)
+        for key, sts in sorted(by_key.items()):
+            n += len(sts)
+            bad = [st for st in sts if not st.ok]
+            at = (bad or sts)[0]
+            rep.check(not bad, "R08.16", key,
+                      f"an attribute / item of `{c08_picks.expr_text(at.pick)[:80]}` is read (or it is called) where "
+                      f"`{c08_picks.expr_text(at.coll)[:60]}` is not known to hold {'an element' if at.need == 1 else f'{at.need} elements'}: "
+                      "when the pieces that would fill it were omitted the pick is Undefined, the dereference raises UndefinedError and the "
+                      "build stops before the remaining modules are written",
+                      where=f"openapi_python_client/templates/{name}:{getattr(at.node, 'lineno', 0)}",
+                      lhs=f"{len(bad)} of {len(sts)} dereferences unguarded", rhs="inside a loop over the collection / under a guard that implies it is non-empty")
+    rep.indexed["picked_element_dereferences"] = n
+    fired = c08_picks.control()
+    rep.control("R08.16 unguarded dereference of a picked element", fired)
+    rep.require(fired, "the positive control of R08.16 (a synthetic template with guarded and unguarded dereferences of picked elements)")
 
 
 FIXPOINT_RULE_TEXT = (
